@@ -92,7 +92,7 @@ class Result {
       if (other.has_value())
         Assign(other.value_);
       else
-        Assign(other.error_);
+        Assign(other.error());
     }
     return *this;
   }
@@ -101,7 +101,7 @@ class Result {
       if (other.has_value())
         Assign(std::move(other.value_));
       else
-        Assign(other.error_);
+        Assign(other.error());
 
       other.Destruct();
     }
@@ -144,6 +144,9 @@ class Result {
     if (has_value()) {
       value_ = value;
     } else {
+      // Leave the error state first: the storage of error_ is reused by the new
+      // value, so a constructor that throws must not leave a stale error behind.
+      Destruct();
       new (&value_) T(value);
       state_ = State::Value;
     }
@@ -153,6 +156,7 @@ class Result {
     if (has_value()) {
       value_ = std::move(value);
     } else {
+      Destruct();
       new (&value_) T(std::move(value));
       state_ = State::Value;
     }
